@@ -30,6 +30,12 @@ def pipelines(seed, root):
                                                     'e': {'args': ['b', '_m', 'a'], 'silent': ['a', 'b']}},
           'params': {}, 'cargs': {'n': None, 'm': rng.choice([None, 0, 'x'])}, 'defaults': {}, 'inherit': True}
 
+    # a constructor argument that feeds BOTH the ids and a field a dataset-wide layer reads: the constant's leaf hash sits in the hash of the ids
+    # and in the static hash the Filter / GroupBy keeps (one object before pickling)
+    pw = {'k': 'transform', 'cls': 'PW', 'fields': {'ids': {'args': ['ids', '_k'], 'f': 'PW.ids', 'table': [[[IDS, 2], IDS[:3]], [[IDS, 3], IDS[1:]]], 'meta': True},
+                                                    'x': {'args': ['a', '_k'], 'f': 'PW.x'}},
+          'params': {}, 'cargs': {'k': rng.choice([2, 3])}, 'defaults': {}, 'inherit': True}
+
     def ch(*ls):
         return {'k': 'chain', 'flavour': 'chain', 'layers': list(ls)}
     flt = {'k': 'filter', 'f': 'pp', 'args': ['k'], 'table': [[['u'], True], [['v'], False]]}
@@ -65,6 +71,8 @@ def pipelines(seed, root):
         ('apply-shared-partial-columns', ch(src, {'k': 'apply', 'fns': {'a': 'x', 'b': 'x'}, 'partial': 'ap.shared'}, tr,
                                             {'k': 'columns', 'names': ['c'], 'root': 1, 'shard': 2}), ['c']),
         ('kw-binding', ch(src, kw), ['e']),
+        ('parametrised-ids-filter', ch(src, pw, {'k': 'filter', 'f': 'ppx', 'args': ['x']}), ['ids', 'x']),
+        ('parametrised-ids-groupby-disk', ch(src, pw, {'k': 'groupby', 'by': 'k'}, {'k': 'disk', 'names': ['x'], 'root': 0}), ['x', 'ids']),
         ('none-args-silent', ch(src, nn), ['c', 'd', 'e', ('c', 'e')]),
         ('none-args-silent-disk', ch(src, nn, {'k': 'disk', 'names': ['c', 'e'], 'root': 0}), ['c', 'e']),
         ('merge', ch({'k': 'merge', 'parts': [src, src2]}, tr), ['c', 'ids']),
